@@ -710,27 +710,38 @@ func (r *regulation) ruleOffsets(rule string) {
 }
 
 // forced SetMinPwm on the regulation path (C02 b)
-func (r *regulation) ruleNoForcedMin(rule string) {
+func (r *regulation) ruleNoForcedMin(rule string) { r.ruleNoForcedLimit(rule, "SetMinPwm") }
+
+// ruleNoForcedLimit: no forced setter of a fan limit is called on the regulation path. The envelope proof treats
+// GetMinPwm()/GetMaxPwm() as the fan's limits for the whole run; a limit overwritten while regulating (the raised
+// floor "published" on the fan while the offset is kept as well) is counted twice / moves under the proof.
+func (r *regulation) ruleNoForcedLimit(rule string, setters ...string) {
 	c := r.c
 	n := 0
 	for _, ci := range r.cycles {
-		for fn := range c.Closure([]*ssa.Function{ci.ufs}, false, nil) {
+		for _, fn := range c.SortedFuncs(c.Closure([]*ssa.Function{ci.ufs}, false, nil)) {
 			Calls(fn, func(cc ssa.CallInstruction) {
-				if !isFanInvoke(cc, "SetMinPwm") {
+				name := ""
+				for _, sname := range setters {
+					if isFanInvoke(cc, sname) {
+						name = sname
+					}
+				}
+				if name == "" {
 					return
 				}
 				n++
 				args := cc.Common().Args
 				if b, isConst := ir.ConstBool(args[len(args)-1]); isConst && !b {
-					c.R.Ok(rule, c.FK(fn)+"|SetMinPwm", c.FK(fn), c.P.Pos(cc.Pos()), "SetMinPwm with force=false on the regulation path")
+					c.R.Ok(rule, c.FK(fn)+"|"+name, c.FK(fn), c.P.Pos(cc.Pos()), name+" with force=false on the regulation path")
 					return
 				}
-				c.R.Bad(rule, c.FK(fn)+"|SetMinPwm", c.FK(fn), c.P.Pos(cc.Pos()), "the regulation path overwrites the fan's minimum with force: value "+r.tb.Of(args[0], nil).String()+" is not proved >= the current floor, so the minimum can drop")
+				c.R.Bad(rule, c.FK(fn)+"|"+name, c.FK(fn), c.P.Pos(cc.Pos()), "the regulation path overwrites a limit of the fan with force ("+name+", value "+r.tb.Of(args[0], nil).String()+"): the limits the envelope is proved against change while regulating (a raised floor stored on the fan and kept in the offset is counted twice; the minimum can drop or pass the maximum)")
 			})
 		}
 	}
 	if n == 0 {
-		c.R.Ok(rule, "none", "UpdateFanSpeed call tree", "-", "no SetMinPwm call on the regulation path: the fan's minimum is only changed by attaching measured data (force=false)")
+		c.R.Ok(rule, "none", "UpdateFanSpeed call tree", "-", "no "+strings.Join(setters, "/")+" call on the regulation path: the fan's limits are only changed by attaching measured data (force=false)")
 	}
 }
 
